@@ -119,7 +119,7 @@ func importForeign(def importDef, input antlr.CharStream) (antlr.CharStream, err
 		}
 		imp, err = imp.Configure(&importer.ImporterArg{AppName: def.appname, PackageName: def.pkg, Imports: ""})
 		if err != nil {
-			return nil, syslutil.Exitf(ParseError, err.Error())
+			return nil, syslutil.Exitf(ParseError, fmt.Sprintf("%s cannot be imported: %s", fileName, err))
 		}
 		// FIXME: because filepath information is not provided, external references are ignored in OpenAPI3.
 		output, err := imp.Load(file)
